@@ -291,7 +291,8 @@ impl<T: BinaryDeserializer, const L: usize> BinaryDeserializer for [T; L] {
         if cast!(empty, [u8; 0]).is_ok() {
             let length = context.read_var_u32()?; // NOTE: this is inconsistent with the generic case, but this way it is compatible with the Scala version's Chunk serializer
             let bytes = context.read_bytes(length as usize)?;
-            Ok(unsafe { std::mem::transmute_copy::<_, [T; L]>(&bytes) })
+            let array: [u8; L] = bytes.try_into()?;
+            Ok(unsafe { std::mem::transmute_copy::<[u8; L], [T; L]>(&array) })
         } else {
             let mut array: [MaybeUninit<T>; L] = unsafe { MaybeUninit::uninit().assume_init() };
             for (target, item) in array.iter_mut().zip(deserialize_iterator(context)) {
